@@ -376,3 +376,7 @@ func props() []engine.AnyProp {
 func TestC17(t *testing.T) { engine.RunAll(t, props(), true) }
 
 func TestReplay(t *testing.T) { engine.Replay(t, "C17", props()) }
+
+// Native fuzz targets (thorough tier): bytes drive the same generators through rapid.MakeFuzz.
+func FuzzBstInt8(f *testing.F) { f.Fuzz(rapid.MakeFuzz(props()[0].Fuzz)) }
+func FuzzRing(f *testing.F)    { f.Fuzz(rapid.MakeFuzz(props()[7].Fuzz)) }
